@@ -312,6 +312,22 @@ Proof.
     + rewrite S. cbn [fst snd]. split; [apply IH, W|discriminate].
 Qed.
 
+(* a rejected Set / SetNext leaves the EnumType as it was (Err carries no new state and the loop
+   goes on with the old one), so the members after a rejected statement are numbered as if that
+   statement were absent: from any reachable state, the final name->value map is the reference
+   assignment of the remaining members continued from the assignments made before *)
+Theorem rejected_member_leaves_state bits e idx name ov rest : wf bits e ->
+  set_member_z e name ov = Err ->
+  members_z e idx ((name, ov) :: rest)
+    = (fst (members_z e (S idx) rest), idx :: snd (members_z e (S idx) rest)) /\
+  (forall vs, assign_from bits (ToInt e) rest = Some vs ->
+     ToInt (fst (members_z e idx ((name, ov) :: rest))) = vs).
+Proof.
+  intros W E. cbn [members_z]. rewrite E. split; [reflexivity|].
+  intros vs A. cbn [fst]. destruct (members_z_spec bits rest e (S idx) W) as [_ H].
+  rewrite A in H. apply H.
+Qed.
+
 Theorem members_z_assign_ok bits ms vs : assign bits ms = Some vs ->
   snd (members_z (init bits) 0 ms) = [] /\ ToInt (fst (members_z (init bits) 0 ms)) = vs.
 Proof.
